@@ -63,6 +63,12 @@ def run_case(ns, ctx, case):
     def new_param():
         pid = len(params)
         shp = [(2,), (2, 3), (), (1,), (3, 1, 2)][int(rng.integers(5))]
+        if rng.random() < 0.08:
+            # an integer-valued parameter (index table, class ids): it can never require grad, but it is registered, counted and frozen like any other
+            params[pid] = nn.Parameter(T(rng.integers(0, 5, shp if shp else (1,)).astype(np.int64)))
+            pmodel[pid] = {"req": False, "grad": None, "size": int(np.prod(shp)) if shp else 1, "int": True}
+            features.add("integer-parameter")
+            return pid
         params[pid] = nn.Parameter(T(rng.standard_normal(shp).astype(np.float32), requires_grad=True))
         pmodel[pid] = {"req": True, "grad": None, "size": int(np.prod(shp)) if shp else 1}
         return pid
@@ -155,8 +161,12 @@ def run_case(ns, ctx, case):
     # ---------------- build (in two phases: the tree is observed in between, then changed again)
     phase_break = int(rng.integers(1, max(2, case["n_build"])))
 
+    accepted_wrong_kind = []
+
     def build_steps(lo, hi):
       for step_ in range(lo, hi):
+          if accepted_wrong_kind:
+              return                      # (an implementation that accepts such objects has semantics this model does not describe: stop changing the tree)
           r = rng.random()
           host_candidates = [m for m in model if model[m].kind in ("box", "seq")]
           host = host_candidates[int(rng.integers(len(host_candidates)))]
@@ -202,6 +212,21 @@ def run_case(ns, ctx, case):
               features.add("sequential" + ("-empty" if k == 0 else ("-named" if named else "")))
               trail.append(f"m{s} = Sequential({kids}, named={named})")
               assign(host, name, "M", s, via)
+          elif r < 0.82:
+              # a registration the library refuses (wrong kind of object) is a no-op: the tree is exactly what it was
+              if model[host].reg:
+                  nm = list(model[host].reg)[int(rng.integers(len(model[host].reg)))]
+                  try:
+                      if model[host].reg[nm][0] == "M":
+                          mods[host].register_parameter(nm, T(np.ones(2, dtype=np.float32)))
+                      else:
+                          mods[host].register_module(nm, 3.5)
+                      counters["wrong_kind_registration_accepted"] = counters.get("wrong_kind_registration_accepted", 0) + 1
+                      accepted_wrong_kind.append(nm)
+                  except Exception:
+                      counters["rejected_registrations"] = counters.get("rejected_registrations", 0) + 1
+                      features.add("rejected-registration")
+                      trail.append(f"m{host}: registration of a wrong-kind object under '{nm}' was refused")
           elif r < 0.90:
               if model[host].reg:
                   nm = list(model[host].reg)[int(rng.integers(len(model[host].reg)))]
@@ -294,9 +319,11 @@ def run_case(ns, ctx, case):
         # also act on nodes that are no longer reachable from the root? only reachable ones are specified
         mid = nodes[int(rng.integers(len(nodes)))]
         a = ["train", "eval", "freeze", "unfreeze", "zero_grad", "give_grads"][int(rng.integers(6))]
-        acts.append(a)
         sub = reach(mid)
         ps = [o for o, _ in exp_params(mid)]
+        if a == "unfreeze" and any(pmodel[o].get("int") for o in ps):
+            a = "freeze"                   # (switching requires_grad on is refused for an integer parameter, as in PyTorch; not part of the histories)
+        acts.append(a)
         try:
             import contextlib
             quiet = rng.random() < 0.25          # the same call issued while gradient mode is off: mode / flags / gradients are set all the same
@@ -327,6 +354,8 @@ def run_case(ns, ctx, case):
                         pmodel[o]["grad"] = "zero"
             else:
                 for o in ps:
+                    if pmodel[o].get("int"):
+                        continue
                     params[o].grad = T(np.ones(params[o].shape, dtype=np.float32))
                     pmodel[o]["grad"] = "ones"
             a_ctx.__exit__(None, None, None)
